@@ -8,22 +8,39 @@ import (
 func baseParseStatement(p *Parser) ast.Statement {
 	switch p.CurrentToken.Type {
 	case token.LET:
-		return p.ParseLetStatement()
+		if stmt := p.ParseLetStatement(); stmt != nil {
+			return stmt
+		}
 	case token.FUNCTION:
-		return p.ParseFunctionStatement()
+		if stmt := p.ParseFunctionStatement(); stmt != nil {
+			return stmt
+		}
 	case token.RETURN:
-		return p.ParseReturnStatement()
+		if stmt := p.ParseReturnStatement(); stmt != nil {
+			return stmt
+		}
 	case token.IF:
-		return p.ParseIfStatement()
+		if stmt := p.ParseIfStatement(); stmt != nil {
+			return stmt
+		}
 	case token.WHILE:
-		return p.ParseWhileStatement()
+		if stmt := p.ParseWhileStatement(); stmt != nil {
+			return stmt
+		}
 	case token.FOR:
-		return p.ParseForStatement()
+		if stmt := p.ParseForStatement(); stmt != nil {
+			return stmt
+		}
 	case token.LBRACE:
 		return p.ParseBlockStatement()
 	default:
-		return p.ParseExpressionStatement()
+		if stmt := p.ParseExpressionStatement(); stmt != nil {
+			return stmt
+		}
 	}
+	// a failed statement is reported as a plain nil, never as a nil pointer
+	// wrapped in a non-nil ast.Statement (callers filter with stmt != nil)
+	return nil
 }
 
 func baseParseExpression(p *Parser, precedence int) ast.Expression {
